@@ -172,6 +172,9 @@ H("t5_mp_n1_o0", T, "C03", TR_ALL + ["C04"], "quick",
 H("c04_bc_shared_inclone", T, "C04", ["C04", "C05", "C01", "C03", "C06"], "quick",
   "broadcast shared stream, instrumented payload: consumer A is in the middle of clone(); up to 3 operations of its sibling consumer and of the producer (which wraps the ring) run there",
   "N=2, prefix <=2 sends <=1 recv, injection only inside Clone, up to 3 ops at that site, teardown checked")
+H("c05_bc_shared_inclone", T, "C05", ["C05", "C04", "C01", "C03", "C06"], "thorough",
+  "the scenario of c04_bc_shared_inclone run by C05's check: a value that the producer overwrites while consumer A is cloning it is DROPPED while in use (the payload's liveness table reports it; the assertion is labelled C04 and re-attributed to C05 here); double drop / leak checked at teardown",
+  "N=2, exact prefix 2/1, injection only inside Clone, up to 3 ops at that site, teardown checked", relabel={"C04": "C05"}, mem_gb=26)
 H("c04_bc_streams_inclone", T, "C04", ["C04", "C05", "C01", "C03", "C06"], "quick",
   "broadcast two streams, instrumented payload: stream 0's consumer is in the middle of clone(); stream 1's consumer and the producer run there",
   "N=2, prefix <=2 sends <=1 recv, injection only inside Clone, up to 3 ops at that site, teardown checked")
@@ -390,7 +393,7 @@ for n, r, t in (("c17_churn_r2", 2, "thorough"), ("c17_churn_r3", 3, "thorough")
 H("c18_bc_shared_inclone_mw", T, "C18", ["C18", "C04", "C05", "C03"], "quick",
   "broadcast shared stream, two live senders (multi-writer CAS path), instrumented payload: consumer A frozen in the middle of clone(); its sibling's try_recv and the producer's try_send (which reaches the pinned slot) must each finish in a bounded number of their own steps",
   "N=2, injection only inside Clone, up to 3 ops at that site; retry loops bound 3 with unwinding assertions")
-for n in ("c04_bc_shared_inclone", "c04_bc_streams_inclone", "c04_bc_view_inview", "c04_mp_view_inview", "c04_bc_shared_all", "c05_mp_shared_all",
+for n in ("c04_bc_shared_inclone", "c05_bc_shared_inclone", "c04_bc_streams_inclone", "c04_bc_view_inview", "c04_mp_view_inview", "c04_bc_shared_all", "c05_mp_shared_all",
           "c18_bc_shared_inclone_mw", "c17_teardown_mp", "c17_teardown_bc_stream", "c17_teardown_bc_clone"):
     HARNESSES[n]["teardown"] = True
 H("c16_wq_drop_seq", M, "C16", ["C16", "C17"], "thorough",
@@ -531,7 +534,7 @@ QUICK = {
     "C03": ["c03_fill_mp_c0", "c03_fill_bc_c1", "c03_fill_mp_c2", "c03_fill_bc_c3", "c03_fill_mp_c4", "c03_fill_bc_c5", "c03_fill_mp_c7",
             "c03_fill_bc_c8", "c03_fill_mp_c9", "t5_mp_n1_o0", "t1_mp_n1_o0"],
     "C04": ["c04_bc_shared_inclone", "c04_bc_streams_inclone", "c04_bc_view_inview"],
-    "C05": ["c04_mp_view_inview", "c05_seq_bc_n2_streams", "c05_seq_bc_n1_shared", "c05_seq_mp_n2_shared", "c05_mp_shared_all"],
+    "C05": ["c04_mp_view_inview", "c05_seq_bc_n2_streams", "c05_seq_bc_n1_shared", "c05_seq_mp_n2_shared", "c05_mp_shared_all", "c05_bc_shared_inclone"],
     "C06": ["t4_mp_n1_o0", "t3_bc_n2_o0", "t2_bc_n2_o0", "c06_bc_sibdrop_forced", "c06_bc_sibdrop_forced_n1"],
     "C07": ["c07_mp_one_o1", "c07_bc_view_o1", "c07_mp_view_o1", "c14_bc_two_sender_drops", "c14_mp_two_sender_drops"],
     "C08": ["c08_mp_blk00_send_lap", "c08_mp_blk00_drop_lap", "c08_mp_blk00_drop"],
